@@ -91,6 +91,11 @@ func driveC11(t *testing.T, out *vEmitter) {
 								continue
 							}
 							vSignOutHistory(t, out, c.name, c.redis, c.domains, c.path, c.host, sz, k, method, rd, fault)
+							if fault == vNoFault && mi == 0 && ri == 0 {
+								vSignOutSessionCookies = true
+								vSignOutHistory(t, out, c.name+"/cookie-expire-0", c.redis, c.domains, c.path, c.host, sz, k, method, rd, fault)
+								vSignOutSessionCookies = false
+							}
 							if fault == vErrBefore {
 								// the store is down for the whole sign-out request: the session load fails too, not only the delete
 								vSignOutWholeRequestFault = true
@@ -105,6 +110,9 @@ func driveC11(t *testing.T, out *vEmitter) {
 	}
 }
 
+// vSignOutSessionCookies: cookie-expire=0 (the browser drops the cookies when it closes; they carry no Max-Age).
+var vSignOutSessionCookies bool
+
 // vSignOutWholeRequestFault: every store operation of the sign-out request fails, not only the delete.
 var vSignOutWholeRequestFault bool
 
@@ -114,6 +122,9 @@ func vSignOutHistory(t *testing.T, out *vEmitter, name string, redis bool, domai
 		o.Cookie.Path = path
 		o.Cookie.Refresh = time.Hour
 		o.Providers[0].OIDCConfig.InsecureSkipNonce = true
+		if vSignOutSessionCookies {
+			o.Cookie.Expire = 0 // cookies without Max-Age ("session cookies"): a documented configuration
+		}
 	}})
 	b := e.newBrowser("https://" + host)
 	b.seedSession("user@example.com", 2*time.Hour, sz[0]) // stale: the next request refreshes
